@@ -148,7 +148,8 @@ def main():
     reported = 0
     seen_known = {}
     nonrepro = []
-    seen_viol_keys = set()
+    per_key = {}
+    total_viol = 0
     for n, v in enumerate(violations):
         try:
             ok, detail = mod.replay(v)
@@ -161,10 +162,10 @@ def main():
         if key in known_keys:
             seen_known.setdefault(key, (v, detail))
             continue
-        dk = (key, v.get('job'))
-        if dk in seen_viol_keys and reported >= 5:
-            continue
-        seen_viol_keys.add(dk)
+        per_key[key] = per_key.get(key, 0) + 1
+        total_viol += 1
+        if per_key[key] > 5 or reported >= 40:
+            continue            # further counterexamples of the same kind are counted, not listed
         path = os.path.join(HERE, 'out', 'replay', f'{pid}-{reported}.py')
         with open(path, 'w') as f:
             f.write('import sys, json\nsys.path.insert(0, %r)\nimport importlib\nmod = importlib.import_module(%r)\n'
@@ -183,6 +184,8 @@ def main():
     inconclusive.extend(nonrepro)
     wall = time.time() - t0
     status = 1 if reported else (3 if inconclusive else 0)
+    if total_viol > reported:
+        print(f'({total_viol - reported} further counterexamples of already listed kinds not listed)')
     if not a.no_evidence and not a.only:
         ev = {
             'property_id': pid, 'tier': a.tier, 'seed': seed, 'level': 'other',
@@ -206,7 +209,7 @@ def main():
                 'exhaustive': False,
             },
             'assumptions': getattr(mod, 'ASSUMPTIONS', []),
-            'wall_s': round(wall, 2), 'violations': reported,
+            'wall_s': round(wall, 2), 'violations': total_viol,
         }
         os.makedirs(os.path.join(HERE, 'evidence'), exist_ok=True)
         with open(os.path.join(HERE, 'evidence', f'{pid}.json'), 'w') as f:
